@@ -77,6 +77,7 @@ type RunCfg struct {
 	InvalidCfg  bool
 
 	FaultOnlyGroup string            // metamorphic containment pairs: faults only in this group's context
+	NoMislabel     bool              // metamorphic pairs: no node is relabelled into another group
 	StrayExclude   string            // metamorphic pairs: the default group's pods are never bound to this group's nodes
 	saltHook       map[string]string // metamorphic world pairs: per-group stream salt
 
